@@ -38,61 +38,96 @@ theorem status_monotone (P : Prepared) (fns : Fns) (ord : Order) (s : LoopState)
 
 /-! ## Provider part: the gates of a plugin step over the RAW stage-input values
 
-`Arca.Model.Gate` is the transition system of `run()` between the deployment and the start of the plugin, with the two
+`Arca.Model.Gate` is the transition system of `run()` between the deployment and the start of the plugin, with the
 decisions of `provideEnablingInput` / `provideCancelledInput` plugged in from the regenerated facts
-(`Arca.Gen.pluginEnabledDecision`, `Arca.Gen.pluginStopDecision`: extract/decisions.go reads them from the source on every
-run).  The workflow loop validates a stage input against the bool schema but hands the raw value on, so a literal
-`enabled: false` reaches the provider as the STRING "false": what C04 needs is that no value the schema READS as false
-ever enables the step, and that a value it reads as true fires the stop. -/
+(`Arca.Gen.pluginEnabledDecision`, `pluginEnabledRefusal`, `pluginStopDecision`, `pluginStopOnce`: extract/decisions.go reads
+them from the source on every run).  The workflow loop validates a stage input against the bool schema but hands the raw
+value on, so a literal `enabled: false` reaches the provider as the STRING "false".  What C04 needs: no value the schema
+READS as false ever enables the step, a value the schema cannot read starts nothing, and a value it reads as true fires the
+stop.  Since /repo d308cbb the provider reads `enabled` through the bool schema itself (`boolRead`; `arcadrv gate` compares
+that table with the real `schema.NewBoolSchema().Unserialize` on every run). -/
 
 open Arca.Model.Gate Arca.Gen
 
 /-- the real provider: decisions as extracted from the current source -/
 def pluginCfg : Cfg :=
   { enabledDec := pluginEnabledDecision
-    stopDec := pluginStopDecision }
+    enabledRefuse := pluginEnabledRefusal
+    stopDec := pluginStopDecision
+    stopOnce := pluginStopOnce }
 
-/-- the extractor understood all three decisions (otherwise the theorems below would be about `unknown`) -/
+/-- the extractor understood every decision (otherwise the theorems below would be about `unknown`) -/
 theorem decisions_recognised :
-    pluginEnabledDecision.known = true ∧ foreachEnabledDecision.known = true ∧ pluginStopDecision.known = true := by
+    pluginEnabledDecision.known = true ∧ pluginEnabledRefusal.known = true ∧ foreachEnabledDecision.known = true ∧
+    foreachEnabledRefusal.known = true ∧ pluginStopDecision.known = true := by
   decide
 
-/-- `enabled := input["enabled"] == nil || input["enabled"] == true`: exactly nil and the Go bool `true` enable -/
-theorem enabled_iff_nil_or_true (i : Option Val) :
-    pluginEnabledDecision.eval i = true ↔ (i = none ∨ i = some .null ∨ i = some (.bool true)) := by
+/-- both providers take the same decisions on `enabled` -/
+theorem foreach_decides_like_plugin :
+    ∀ i, foreachEnabledDecision.eval i = pluginEnabledDecision.eval i ∧
+         foreachEnabledRefusal.eval i = pluginEnabledRefusal.eval i := by
+  intro i
+  simp [foreachEnabledDecision, pluginEnabledDecision, foreachEnabledRefusal, pluginEnabledRefusal]
+
+/-- `enabled := true; if input["enabled"] != nil { enabled = <bool schema reading> }`: exactly nil and the values the bool
+    schema reads as true enable -/
+theorem enabled_iff_nil_or_reads_true (i : Option Val) :
+    pluginEnabledDecision.eval i = true ↔ (i = none ∨ i = some .null ∨ ∃ v, i = some v ∧ boolRead v = some true) := by
   simp only [pluginEnabledDecision, FieldCond.eval]
   rcases i with _ | v
-  · simp [FieldCond.rawNil, FieldCond.rawEqBool]
-  · cases v <;> simp [FieldCond.rawNil, FieldCond.rawEqBool]
+  · simp [FieldCond.rawNil, FieldCond.rawRead]
+  · cases v <;> simp [FieldCond.rawNil, FieldCond.rawRead, boolRead]
 
-theorem foreach_enabled_iff_nil_or_true (i : Option Val) :
-    foreachEnabledDecision.eval i = true ↔ (i = none ∨ i = some .null ∨ i = some (.bool true)) := by
-  simp only [foreachEnabledDecision, FieldCond.eval]
+theorem foreach_enabled_iff_nil_or_reads_true (i : Option Val) :
+    foreachEnabledDecision.eval i = true ↔ (i = none ∨ i = some .null ∨ ∃ v, i = some v ∧ boolRead v = some true) := by
+  rw [(foreach_decides_like_plugin i).1]
+  exact enabled_iff_nil_or_reads_true i
+
+/-- the provider refuses exactly the present values the bool schema rejects -/
+theorem refused_iff_unreadable (i : Option Val) :
+    pluginEnabledRefusal.eval i = true ↔ ∃ v, i = some v ∧ v ≠ .null ∧ boolRead v = none := by
+  simp only [pluginEnabledRefusal, FieldCond.eval]
   rcases i with _ | v
-  · simp [FieldCond.rawNil, FieldCond.rawEqBool]
-  · cases v <;> simp [FieldCond.rawNil, FieldCond.rawEqBool]
+  · simp [FieldCond.rawNil, FieldCond.rawRead]
+  · cases v <;> simp [FieldCond.rawNil, FieldCond.rawRead, boolRead]
 
 /-- **what C04 needs of the enabled gate**: a value the bool schema reads as false (`false`, "false", "no", "off", 0, "0",
     ...) never enables the step -/
 theorem false_reading_never_enables (v : Val) (h : boolRead v = some false) :
     pluginEnabledDecision.eval (some v) = false ∧ foreachEnabledDecision.eval (some v) = false := by
-  have hne : v ≠ .bool true := by intro hv; subst hv; simp [boolRead] at h
   have hnn : v ≠ .null := by intro hv; subst hv; simp [boolRead] at h
-  constructor
+  have hp : pluginEnabledDecision.eval (some v) = false := by
+    cases hb : pluginEnabledDecision.eval (some v) with
+    | false => rfl
+    | true =>
+      have := (enabled_iff_nil_or_reads_true (some v)).1 hb
+      rcases this with h1 | h1 | ⟨w, h1, h2⟩
+      · simp at h1
+      · injection h1 with h1; exact absurd h1 hnn
+      · injection h1 with h1; subst h1; rw [h] at h2; simp at h2
+  exact ⟨hp, by rw [(foreach_decides_like_plugin (some v)).1]; exact hp⟩
+
+/-- the repair of d308cbb: a value the schema reads as true (the literal `enabled: true` arrives as the string "true") enables -/
+theorem true_reading_enables (v : Val) (h : boolRead v = some true) : pluginEnabledDecision.eval (some v) = true :=
+  (enabled_iff_nil_or_reads_true (some v)).2 (Or.inr (Or.inr ⟨v, rfl, h⟩))
+
+/-- a value the schema cannot read neither enables nor disables: the input is refused (an error, nothing is sent) -/
+theorem unreadable_is_refused (v : Val) (h : boolRead v = none) (hn : v ≠ .null) :
+    pluginEnabledRefusal.eval (some v) = true ∧ pluginEnabledDecision.eval (some v) = false ∧
+    ∀ s, step pluginCfg s (.provideEnabling (some v)) = none := by
+  have hr : pluginEnabledRefusal.eval (some v) = true := (refused_iff_unreadable (some v)).2 ⟨v, rfl, hn, h⟩
+  refine ⟨hr, ?_, ?_⟩
   · cases hb : pluginEnabledDecision.eval (some v) with
     | false => rfl
-    | true => have := (enabled_iff_nil_or_true (some v)).1 hb; simp [hne, hnn] at this
-  · cases hb : foreachEnabledDecision.eval (some v) with
-    | false => rfl
-    | true => have := (foreach_enabled_iff_nil_or_true (some v)).1 hb; simp [hne, hnn] at this
-
-/-- a value the schema does not read at all never enables either -/
-theorem unreadable_never_enables (v : Val) (h : boolRead v = none) (hn : v ≠ .null) :
-    pluginEnabledDecision.eval (some v) = false := by
-  have hne : v ≠ .bool true := by intro hv; subst hv; simp [boolRead] at h
-  cases hb : pluginEnabledDecision.eval (some v) with
-  | false => rfl
-  | true => have := (enabled_iff_nil_or_true (some v)).1 hb; simp [hne, hn] at this
+    | true =>
+      have := (enabled_iff_nil_or_reads_true (some v)).1 hb
+      rcases this with h1 | h1 | ⟨w, h1, h2⟩
+      · simp at h1
+      · injection h1 with h1; exact absurd h1 hn
+      · injection h1 with h1; subst h1; rw [h] at h2; simp at h2
+  · intro s
+    simp only [step, pluginCfg, hr]
+    split <;> simp
 
 /-- `stop_if`: the stop is applied iff the value is present and is not the Go bool `false` -/
 theorem stop_iff_present_and_not_false (i : Option Val) :
@@ -111,24 +146,33 @@ theorem true_reading_stop_fires (v : Val) (h : boolRead v = some true) : pluginS
   · injection hx with hx; subst hx; simp [boolRead] at h
   · injection hx with hx; subst hx; simp [boolRead] at h
 
-/-- The converse readings do NOT hold for the current code (kernel-checked witnesses; reported as candidate findings of the
-    declarative meaning, not of C04, which only restricts execution): the literal `enabled: true` reaches the provider as
-    the string "true", which the schema reads as true and which DISABLES the step; the literal `stop_if: false` reaches it
-    as "false", which the schema reads as false and which STOPS the step. -/
-theorem reads_true_yet_disabled_counterexample :
-    ∃ v, boolRead v = some true ∧ pluginEnabledDecision.eval (some v) = false :=
-  ⟨.str "true", by decide, by decide⟩
+/-- the stop condition is accepted once (c87121e): every later stop input is refused and changes nothing -/
+theorem stop_input_accepted_once (s : GState) (i : Option Val) (h : s.stopAvail = true) :
+    step pluginCfg s (.provideCancelled i) = none := by
+  simp [step, pluginCfg, pluginStopOnce, h]
 
+/-- The decision the provider took before d308cbb, `input["enabled"] == nil || input["enabled"] == true` on the raw value,
+    kept as the reason for that repair (kernel-checked witness): the literal `enabled: true` reaches the provider as the
+    string "true", which the schema reads as true and which that decision turned into DISABLED. -/
+def oldEnabledDecision : FieldCond := .or .isNil (.eqBool true)
+
+theorem old_decision_reads_true_yet_disabled :
+    ∃ v, boolRead v = some true ∧ oldEnabledDecision.eval (some v) = false ∧ pluginEnabledDecision.eval (some v) = true :=
+  ⟨.str "true", by decide, by decide, by decide⟩
+
+/-- Still true of the current code, and allowed by C04 (a stopped step does not execute): `stop_if` is declared with the
+    `any` schema, "a non-false value cancels the step", and the literal `stop_if: false` reaches the provider as the TEXT
+    "false", which is a non-false value although the bool schema reads it as false. -/
 theorem reads_false_yet_stopped_counterexample :
     ∃ v, boolRead v = some false ∧ pluginStopDecision.eval (some v) = true :=
   ⟨.str "false", by decide, by decide⟩
 
 /-- `executes_only_if_enabled`: under every interleaving of the callers with `run()`, the plugin is handed its input only
-    after an enabling input whose raw value is nil or the Go bool `true` was accepted -/
+    after an enabling input was accepted whose raw value is nil or reads true under the bool schema -/
 theorem executes_only_if_enabled (s : GState) (h : Reach pluginCfg s) (he : s.pc = .executing) :
-    ∃ i, s.given = some i ∧ (i = none ∨ i = some .null ∨ i = some (.bool true)) := by
+    ∃ i, s.given = some i ∧ (i = none ∨ i = some .null ∨ ∃ v, i = some v ∧ boolRead v = some true) := by
   obtain ⟨i, hg, hev⟩ := (inv_reach pluginCfg s h).pass (by simp [he, passed])
-  exact ⟨i, hg, (enabled_iff_nil_or_true i).1 hev⟩
+  exact ⟨i, hg, (enabled_iff_nil_or_reads_true i).1 hev⟩
 
 /-- `false_reading_never_executes`: once an enabling input whose value reads false was accepted, `run()` never gets past the
     enable gate: it neither announces the starting stage by that path nor executes the plugin -/
@@ -169,7 +213,7 @@ theorem stop_before_start_partial (s : GState) (h : Reach pluginCfg s) (he : s.s
   have := (hinv.early he).2
   simp [hx] at this
 
-/-- the same for any decisions: the closure argument does not depend on what the two decisions are -/
+/-- the same for any decisions: the closure argument does not depend on what the decisions are -/
 theorem stop_before_start_partial_any (c : Cfg) (s : GState) (h : Reach c s) (he : s.stoppedEarly = true) :
     s.pc ≠ .executing := by
   intro hx
@@ -182,15 +226,20 @@ theorem stop_before_start_partial_any (c : Cfg) (s : GState) (h : Reach c s) (he
     takes the enabled value; the non-blocking receive in `startStage` takes the run input without looking at the context. -/
 theorem stop_before_start_counterexample :
     ∃ acts s, exec pluginCfg Gate.init acts = some s ∧ s.stoppedBeforeAnnounce = true ∧ s.pc = .executing :=
-  ⟨[.provideDeploy, .recvDeploy, .provideEnabling (some (.bool true)), .provideStarting, .deployOk, .provideCancelled (some (.bool true)),
-    .evalEnableSelect false, .recvRunNonBlocking], _, rfl, by decide, by decide⟩
+  ⟨[.provideDeploy, .recvDeploy, .provideEnabling (some (.str "yes")), .provideStarting, .deployOk,
+    .provideCancelled (some (.bool true)), .evalEnableSelect false, .recvRunNonBlocking], _, rfl, by decide, by decide⟩
 
-/-- non-vacuity: the gate lets an enabled, unstopped step through, and disables on the string "false" -/
+/-- non-vacuity: the gate lets an enabled, unstopped step through (also on the literal text "true"), disables on the string
+    "false", refuses "maybe", closes on a stop and ignores a second stop input -/
 example : (exec pluginCfg Gate.init [.provideDeploy, .recvDeploy, .deployOk, .evalEnableSelect false, .provideEnabling none, .recvRunNonBlocking,
     .evalStartSelect false, .provideStarting]).map (·.pc) = some .executing := by decide
+example : (exec pluginCfg Gate.init [.provideDeploy, .recvDeploy, .deployOk, .evalEnableSelect false, .provideEnabling (some (.str "true")),
+    .recvRunNonBlocking, .evalStartSelect false, .provideStarting]).map (·.pc) = some .executing := by decide
 example : (exec pluginCfg Gate.init [.provideDeploy, .recvDeploy, .deployOk, .evalEnableSelect false, .provideEnabling (some (.str "false"))]).map (·.pc)
     = some .disabledEnd := by decide
+example : step pluginCfg Gate.init (.provideEnabling (some (.str "maybe"))) = none := by decide
 example : (exec pluginCfg Gate.init [.provideDeploy, .recvDeploy, .deployOk, .evalEnableSelect false, .provideCancelled (some (.str "yes")),
     .provideEnabling (some (.bool true)), .provideStarting]).map (·.pc) = some .closedEnd := by decide
+example : (exec pluginCfg Gate.init [.provideCancelled none, .provideCancelled (some (.bool true))]).map (·.pc) = none := by decide
 
 end Arca.Props.C04
